@@ -136,7 +136,8 @@ Proof. intros. unfold pidx, tri. simpl. rewrite Z.add_0_r. apply Z.mod_small. as
 Lemma empty_inv L : Tinv L empty_table.
 Proof.
   split.
-  - intros i. unfold bwf, empty_table, empty_bucket, cnt. cbn. split; [unfold enc_inv; cbn; lia|]. split; intros; [reflexivity|lia].
+  - intros i. unfold bwf, empty_table, empty_bucket, cnt. cbn. split; [unfold enc_inv; cbn; lia|]. split; intros x Hx; [|lia].
+    unfold Gen_O2.maxCount. destruct (Z.leb_spec 0 x), (Z.ltb_spec x 3); try lia. reflexivity.
   - intros b slot Hb Ho. unfold occ, empty_table, empty_bucket, cnt in Ho. cbn in Ho. lia.
 Qed.
 
